@@ -4,8 +4,8 @@ def main(tier, args):
     t0 = time.time()
     exe = vf.build("C04/signals", [vf.VERIF + "/checks/C04/harness.cpp"], vf.module_sources("event", exclude=("event/common_loop_signal.cpp",)), mode="asan",
                    plain_srcs=[vf.VERIF + "/engine/sched/log_stub.cpp"])
-    depth, depth_b, depth_c, depth_c1, depth_ci, depth_d, gen_cap, dl = (6, 6, 6, 5, 5, 5, 1, 80) if tier == "quick" else (8, 7, 12, 9, 9, 9, 2, 1200)
-    cenv = {"VERIF_WORKERS": "2", "C04_GEN_CAP": str(gen_cap)}
+    depth, depth_b, depth_c, depth_c1, depth_ci, depth_d, gen_cap, dl = (6, 6, 6, 5, 5, 4, 1, 120) if tier == "quick" else (8, 7, 10, 8, 8, 7, 2, 1200)
+    cenv = {"VERIF_WORKERS": "2", "C04_GEN_CAP": str(gen_cap), "C04_LANE_C_DESTROY": "0" if tier == "quick" else "1"}
     res = vf.Result(); log = open(vf.BUILD + "/C04/log.txt", "w")
     jobs = [("%s:cfg%d:A" % (e, c), [exe, e, str(depth), str(c), "A"]) for e in ("epoll", "select") for c in (0, 1, 2)]
     jobs += [("%s:cfg1:B" % e, [exe, e, str(depth_b), "1", "B"], {"VERIF_WORKERS": "2"}) for e in ("epoll", "select")]
@@ -15,21 +15,28 @@ def main(tier, args):
     if args.only: jobs = [j for j in jobs if j[0] == args.only]
     vf.run_procs(res, jobs, env={"VERIF_DEADLINE_S": str(dl), "VERIF_WORKERS": "3"}, log=log)
     vf.finish(PID, tier, res, t0,
-              rule="BFS with canonical-state dedup over op histories on real SignalEvents spread over two loops on two threads driven in lock-step (fork per evaluation); events: e0 {USR1} L0, e1 {USR1,USR2} L0, e2 one-shot {USR1} L1, e3 {USR2} L1, e4 one-shot {USR1,USR2} L0, e5 {SIGKILL} L0; "
-                   "all three initialize() overloads are used (int: e0,e2,e3,e5; initializer_list: e1; std::set: e4). "
+              rule="BFS with canonical-state dedup over op histories on real SignalEvents spread over two loops on two threads (each with SIGHUP+SIGWINCH blocked from the start) driven in lock-step (fork per evaluation); events: e0 {USR1} L0, e1 {USR1,USR2} L0, e2 one-shot {USR1} L1, e3 {USR2} L1, e4 one-shot {USR1,USR2} L0, "
+                   "e5 {SIGKILL} L0, e6 {USR1,SIGSTOP} L0, e7 (created without initialize()) L1; all three initialize() overloads are used (int: e0,e2,e3,e5; initializer_list: e1 and, in configs 0 and 2, the one-shot e4; std::set: e6 and, in config 1, e4). "
                    "Lane A (depth %d, both engines x 3 disposition configs): enable/disable/destroy on e0..e4 + raise(USR1|USR2) on the controller thread followed by one pass of every loop. "
-                   "Lane B (depth %d, both engines, config 1): enable/disable on e0..e4 + deliveries raised on a loop's own thread and several deliveries before one pass (USR1 twice; USR1 then USR2; 10xUSR1+USR2 = 11; 21 alternating: more than two reads of 10). "
-                   "Lane C (depth %d, both engines x 3 configs) re-subscription: enable/disable on e0,e1,e2 + enable(e5) (sigaction fails: enable must return false and subscribe nothing) + single deliveries, with the state key extended by saturating model counters "
-                   "'loop l dropped its last subscriber before' / 'signal s was restored before' and by 'deferred tasks still queued on loop l', so tear-down -> (pass | no pass) -> subscribe again -> deliveries is explored; lane Ci = lane C with every enable/disable issued from a runNext task inside a kOnce pass (config 1); the direct lane C of config 1 also offers enable(e6)/destroy(e6) with e6 = {USR1,SIGSTOP} (enable must fail as a whole and leave nothing subscribed). "
-                   "Lane D (depth %d, both engines, config 1) initialise-again: e0 {USR1}, e3 {USR2} and e7 (created without initialize()): enable/disable on all three, destroy and addsig (= initialize() again through the accumulating int / initializer_list overloads, adding the other signal) on e0 and e7, on enabled and on disabled events, including enable() before any initialize(); + single deliveries; "
+                   "Lane B (depth %d, both engines, config 1): enable/disable on e0..e4 + deliveries raised on a loop's own thread and several deliveries before one pass (USR1 twice; USR1 then USR2; 10xUSR1+USR2 = 11; 21 alternating: three reads of up to 10). "
+                   "Lane C (depth %d; %d in config 1; both engines x 3 configs) re-subscription: enable/disable on e0,e1,e2 + enable(e5) (sigaction fails: enable must return false and subscribe nothing) "
+                   "+ enable_nofd(e0|e2) = enable() while pipe2/socketpair/eventfd fail with EMFILE, offered when the loop has no subscription (its pipe cannot be created: enable must return false and change nothing, dispositions compared at once) "
+                   "+ in config 1 enable(e6)/destroy(e6) (enable must fail as a whole and leave nothing subscribed)%s + single deliveries; the state key is extended by model counters 'loop l dropped its last subscriber' / 'signal s was restored' saturating at %d "
+                   "and by 'deferred tasks still queued on loop l', so tear-down -> (pass | no pass) -> subscribe again -> deliveries is explored. "
+                   "Lane Ci (depth %d, config 1): every op is ONE runNext task inside one kOnce pass of its loop: enable/disable on e0,e1,e2, enable(e5), rearm(e0|e2) = disable();enable(), swap = disable(e0);enable(e1), destroy(e0). "
+                   "Lane D (depth %d, both engines, config 1) initialise-again: e0, e3, e7: enable/disable on all three, destroy on e0,e7; addsig (= initialize() again through the accumulating int / initializer_list overloads, adding the other signal; e7's list calls pass kOneshot: mode of the last initialize wins) on enabled and disabled events incl. enable() before any initialize(); "
+                   "addbad(e0) = initialize(SIGSTOP) (every later enable must fail as a whole: on an enabled event it keeps its subscriptions, on a disabled one both USR signals are rolled back); setsig(e0) = initialize(std::set{USR2}) on the disabled event (assigns); + single deliveries; "
                    "model: the accumulated set takes effect at the next enable() that returns true, from then on the enabled event gets its callbacks for the whole set and disable/destroy restores every disposition. "
                    "Pre-installed dispositions (USR1,USR2) in {(SIG_IGN,SIG_DFL), (plain handler, SA_SIGINFO handler), (SIG_DFL, plain handler)}, each signal with its own handler function, sa_mask and sa_flags; a delivery that would hit a (restored) SIG_DFL is not offered. "
                    "Oracle (reference model only): per delivery script every enabled persistent subscriber gets exactly as many callbacks per signal as that signal was delivered, with that signal number, on its loop's thread; a one-shot exactly one; nobody else any; "
-                   "the pre-installed handler of each signal is invoked once per delivery of its own signal with (signo, siginfo->si_signo, non-null context) and never for the other signal; isEnabled() agrees with the model; enable() returns true (false for e5); "
-                   "each loop thread's signal mask is the same after every operation as at thread start; sigaction() equals the pre-subscription disposition whenever a signal has no subscriber and after every event has been destroyed" % (depth, depth_b, depth_c, depth_d),
+                   "the pre-installed handler of each signal is invoked once per delivery of its own signal with (signo, siginfo->si_signo, non-null context) and never for the other signal; isEnabled() agrees with the model; enable() returns what the model says; "
+                   "each loop thread's signal mask is the same (non-empty) after every operation as at thread start; sigaction() equals the pre-subscription disposition whenever a signal has no subscriber and after every event has been destroyed"
+                   % (depth, depth_b, depth_c, depth_c1, "" if tier == "quick" else " + destroy(e0) in configs 0 and 2", gen_cap, depth_ci, depth_d),
               assumptions=["deliveries happen only while no subscription change is in progress and subscription changes are never made inside a signal callback apart from the one-shot's own self-disable (DESIGN 1.7)",
                            "disposition compared as handler + sa_mask + (sa_flags & ~SA_RESTORER) (glibc always adds SA_RESTORER)",
                            "several deliveries before one pass: the one-shot clause (at most once) takes precedence over one-callback-per-delivery; order of callbacks between signals is not checked",
-                           "lanes B and C use reduced event sets / one disposition config (B, Ci); lane A's state key does not contain the re-subscription counters (lane C's does)",
-                           "lane D: disable()/destroy of an ENABLED event that holds an added signal no enable() has subscribed yet (enable; addsig; disable) is only offered with C04_ADD_SIGNAL_THEN_DISABLE=1 (default off: on the current code unsubscribeSignal() of the never-subscribed signal installs a zero-filled old handler = SIG_DFL, or dereferences the already deleted pipe reader; see the harness header); with the switch off such an event gets enable() again first",
-                           "between addsig on an enabled event and its next enable() the model expects the subscriptions of the last enable() (reading: additions take effect at enable())"])
+                           "lanes B, C, Ci and D use reduced event sets / one disposition config (B, Ci, D); lane A's state key does not contain the re-subscription counters (lane C's does)",
+                           "'descriptor table full' is produced by failing pipe2/socketpair/eventfd with EMFILE in the harness executable (plain pipe() is left alone: the sanitizer run-time needs it); the model assumes that subscribing on a loop that already has its pipe needs no new descriptor",
+                           "between addsig on an enabled event and its next enable() the model expects the subscriptions of the last enable() (reading: additions take effect at enable()); addbad is only offered while no added signal is pending (what a failing enable() on an enabled event does to signals added since is not decided by the property)",
+                           "private members are read for the state key only, through engine/probe.h (missing member -> @INFO missing-member and a finer key); the file-local _signal_ctxs_ and the class names SignalEventImpl/CommonLoop are named directly",
+                           "switches (all default on since the repairs 4fe5a08 and a5defbb in /repo): C04_MIXED_UNCATCHABLE_SET=0 removes e6, C04_ADD_SIGNAL_THEN_DISABLE=0 removes disable/destroy of an enabled event holding a not yet subscribed added signal"])
